@@ -34,6 +34,18 @@ every pointer reached is dereferenced breadth first up to 8 hops (`head.list->ne
 parsing the target type at that absolute offset of the original bytes on a fresh stream, with the stream parked at random positions,
 repeated dereference, arithmetic on inner pointers (`(p + k).dereference()` == parse at addr + k), attribute access through the
 pointer and dumps() of the dereferenced structure; all seven widths, both byte orders, both readers, packed and aligned.
+
+Failed dereferences other than the end of the stream (harness/v4_c16.py, failed_derefs): generated records holding pointers (`X *p`, `X *a[2]`,
+`X **pp`, inside a nested structure; packed / aligned, optional dynamic tail) to targets whose read FAILS with something that is not an
+EOFError - invalid UTF-16 behind `wchar *` / `wchar s[k]` / `wchar s[]` / `wchar s[n]` members (UnicodeDecodeError), array-size expressions that
+divide by zero on the pointed-to bytes (`d[C / n]`, `C % n`, `C / (n - K)`, `C / (n & M)`, nested, in the 2nd element of an array of structures:
+ZeroDivisionError), an undefined name in the expression (ExpressionParserError), or a user stream (BytesIO subclass / plain read-seek-tell object)
+whose read() raises OSError / TimeoutError / RuntimeError / ValueError / its own exception class (or delivers nothing) once the target region is
+touched.  From one stream [REC 1][REC 2][targets]: REC 1 is parsed, every pointer followed (dereference(), attribute access, str()), stream
+sometimes parked elsewhere; each access must raise / return what parsing the target type (separately loaded copy) at that offset of a fresh
+stream of the same kind gives, leave the stream position EXACTLY where it was whatever the outcome, and give the fault-free parse on a repeated
+access; then REC 2 is parsed from the stream and must be (value, end position, what its pointers dereference to) what a fresh parse at that
+offset gives.  All seven widths, both byte orders, both readers.
 """
 from __future__ import annotations
 
@@ -43,6 +55,7 @@ import itertools
 from .. import common, defs, impl, refimpl, s2_ptr
 from .. import t5_c16 as t5
 from .. import u4_c16 as u4
+from .. import v4_c16 as v4
 from ..common import A, Case, Result, mkrng, parse_sexp, run_driver, sx
 
 PTRS = dict(s2_ptr.ALL_PTRS)   # uint8 .. uint128, packable and not
@@ -73,7 +86,13 @@ def run(env) -> Result:
                 "Same-name targets: distinct target types sharing a type name on one instance (inline tags reused with other layouts, add_type(replace=True), "
                 "pointer typedefs), every pointer dereferenced against the declared layout. Multi-hop chains: generated graphs of structures holding pointers "
                 "and linked memory images, every pointer reached from the head dereferenced up to 8 hops against a fresh parse at that absolute offset, "
-                "stream parked at random positions, arithmetic on inner pointers, attribute access, dumps of dereferenced structures. distinct = (config, target, address, data); non-trivial = non-null address")
+                "stream parked at random positions, arithmetic on inner pointers, attribute access, dumps of dereferenced structures. "
+                "Failed dereferences other than EOF: generated records with pointers (members, arrays, pointer-to-pointer, nested; packed/aligned) to targets whose read raises "
+                "UnicodeDecodeError (invalid UTF-16 in wchar members), ZeroDivisionError / ExpressionParserError (array-size expression on the pointed-to bytes) or the exception of a "
+                "user stream whose read() fails inside the target (OSError, TimeoutError, RuntimeError, ValueError, own class; BytesIO subclass and plain read/seek/tell object): outcome == "
+                "parsing the target at that offset of a fresh stream of the same kind, stream position unchanged after every access (dereference(), attribute, str()), repeated access == "
+                "fault-free parse, and the next record parsed from the same stream == fresh parse at that offset (value, end, its pointers); 7 widths x {<,>} x {interpreted, compiled}. "
+                "distinct = (config, target, address, data); non-trivial = non-null address (failed-dereference family: the access fails with something other than EOFError)")
     dc = impl.dc()
     rnd = mkrng(env["seed"], "c16")
     tier = env["tier"]
@@ -370,6 +389,8 @@ def run(env) -> Result:
     # ---- distinct target types that share a type name on one instance; multi-hop dereference chains (own PRNG streams)
     u4.same_name_histories(dc, env, res, viol, mkrng(env["seed"], "c16-same-name"))
     u4.chain_walks(dc, env, res, viol, mkrng(env["seed"], "c16-chains"))
+    # ---- dereferences that fail with something other than the end of the stream: position restored, next record unaffected (own PRNG stream)
+    v4.failed_derefs(dc, env, res, viol, mkrng(env["seed"], "c16-failed-deref"))
     # pointer inside a fixed-size union (finding F11): the dereference must read the outer stream
     for pname, endian in itertools.product(("uint16", "uint32"), "<>"):
         cs = dc.cstruct(endian=endian, pointer=pname)
